@@ -134,9 +134,14 @@ class Check:
             fb = fallback.get(name) or fallback.get("*")
             failures = []
             replayed = None
-            if ob is not None and ob.get("model") is not None and replayers and (name in replayers):
+            if ob is not None and ob.get("model") is not None:
                 try:
-                    replayed = replayers[name](ob["model"])
+                    if replayers and name in replayers:
+                        replayed = replayers[name](ob["model"])
+                    else:
+                        from pyvc import native as _native
+                        c_ = [c for c in mod.CONTRACTS if c["name"] == name][0]
+                        replayed = _native.replay_model(c_, getattr(mod, "CLASSES", {}), ob["model"])
                 except Exception as exn:
                     replayed = None
                     self.notes.append(f"replay of counter-model for {what} failed to run: {exn!r}")
